@@ -135,3 +135,7 @@ impl CssDestination for CssData {
         self.body.push(Item::Separator);
     }
 }
+
+#[cfg(kani)]
+#[path = "/verif/kani/cssdata.rs"]
+mod kani_verif;
